@@ -8,31 +8,33 @@ import (
 )
 
 const (
-	ownTable  = 0
-	ownColumn = 1
-	ownRow    = 2
-	ownCell   = 3
-	ownAlien  = 4 // an owner the core package does not know (a wrapper object)
+	ownTable     = 0
+	ownColumn    = 1
+	ownRow       = 2
+	ownCell      = 3
+	ownAlien     = 4 // an owner the core package does not know (a wrapper object)
+	ownCellValue = 5 // a caller-held Cell value (registration time only; behaves as ownCell afterwards)
 )
 
-var ownNames = []string{"table", "column", "row", "cell", "alien"}
+var ownNames = []string{"table", "column", "row", "cell", "alien", "cell"}
 var timeNames = []string{"add", "pre", "render", "post"}
 var targetNames = []string{"itself", "cell", "row"}
 
 // SimCallback is the PropertyCallback seam: it records each invocation,
 // optionally marks its target, and fails when the script says so.
 type SimCallback struct {
-	id      int
-	w       *World
-	owner   int    // ownTable..
-	col     int    // column number for ownColumn
-	row     *mRow  // for ownRow
-	cell    *mCell // for ownCell
-	time    int    // 0 add, 1 pre, 2 render, 3 post
-	target  int    // 0 itself, 1 cell, 2 row
-	fail    map[int]bool
-	marker  bool
-	invoked int
+	id        int
+	w         *World
+	owner     int    // ownTable..
+	col       int    // column number for ownColumn
+	row       *mRow  // for ownRow
+	cell      *mCell // for ownCell
+	time      int    // 0 add, 1 pre, 2 render, 3 post
+	target    int    // 0 itself, 1 cell, 2 row
+	fail      map[int]bool
+	marker    bool
+	invoked   int
+	sharedErr bool // failing invocations all return one and the same error value
 }
 
 type markerKey struct{ reg int }
@@ -69,7 +71,18 @@ func (cb *SimCallback) UpdateProperties(po tabular.PropertyOwner) error {
 	}
 	yield(w.Y, "callback")
 	if cb.fail[inv] {
-		e := w.newErr("cb#" + strconv.Itoa(cb.id))
+		var e error
+		if cb.sharedErr {
+			// the same error value every time (and the same one for every
+			// registration of the run that is scripted this way)
+			if w.sharedSentinel == nil {
+				w.sharedSentinel = w.newErr("shared")
+			}
+			e = w.sharedSentinel
+			w.probe("same_error_value_raised_again")
+		} else {
+			e = w.newErr("cb#" + strconv.Itoa(cb.id))
+		}
 		w.expect(e, w.errSink)
 		w.Faults["cb_error_"+timeNames[cb.time]]++
 		if w.errSink != nil && !w.errSink.attached {
@@ -104,17 +117,25 @@ func (w *World) identify(po tabular.PropertyOwner) (string, bool) {
 		}
 		return "?row", false
 	case *tabular.Cell:
-		id, ok := w.itemIDOf(x.Item())
-		if !ok {
+		// several cells may hold the same item (a caller-owned copy added to
+		// rows): the live one is the one whose lookup yields this very object
+		first := ""
+		for id := 1; id <= w.nextItem; id++ {
+			mc := w.itemCell[id]
+			if mc == nil || !sameItem(mc.item, x.Item()) {
+				continue
+			}
+			if w.livePtr(mc) == x {
+				return "C" + strconv.Itoa(id), true
+			}
+			if first == "" {
+				first = "C" + strconv.Itoa(id)
+			}
+		}
+		if first == "" {
 			return "?cell", false
 		}
-		name := "C" + strconv.Itoa(id)
-		// live: the very element of the row's current cell slice
-		mc := w.itemCell[id]
-		if mc == nil {
-			return name, false
-		}
-		return name, w.livePtr(mc) == x
+		return first, false
 	}
 	// a column (unexported type): compare with the table's handles
 	for n := 0; n <= w.Core.NColumns(); n++ {
@@ -206,11 +227,12 @@ func supported(owner, target int) bool {
 func (w *World) DoCB(st *Step) (bool, *Violation) {
 	switch st.Op {
 	case "register":
-		cb := &SimCallback{id: len(w.regs) + 1, w: w, owner: pick(5, st.A), time: pick(4, st.C), target: pick(3, st.D), marker: st.E&1 != 0, fail: map[int]bool{}}
+		cb := &SimCallback{id: len(w.regs) + 1, w: w, owner: pick(6, st.A), time: pick(4, st.C), target: pick(3, st.D), marker: st.E&1 != 0, sharedErr: st.E&2 != 0, fail: map[int]bool{}}
 		for _, n := range st.Plan {
 			cb.fail[n] = true
 		}
 		var owner tabular.PropertyOwner
+		var regTarget *[]*SimCallback
 		switch cb.owner {
 		case ownTable:
 			owner = w.Core
@@ -248,6 +270,25 @@ func (w *World) DoCB(st *Step) (bool, *Violation) {
 				return true, nil
 			}
 			owner = p
+			regTarget = &cb.cell.regs
+		case ownCellValue:
+			// a Cell value the caller still holds (a by-value copy), registered
+			// upon before it is added to rows
+			var copies []*propOwner
+			for _, o := range w.extraOwn {
+				if o.cell != nil {
+					copies = append(copies, o)
+				}
+			}
+			i := pick(len(copies), st.B)
+			if i < 0 {
+				return true, nil
+			}
+			co := copies[len(copies)-1-i]
+			owner = co.cell
+			regTarget = &co.regs
+			cb.owner = ownCell
+			w.probe("registered_on_caller_owned_cell_value")
 		default:
 			owner = w.Tab
 			if _, isCore := w.Tab.(*tabular.ATable); isCore {
@@ -264,6 +305,9 @@ func (w *World) DoCB(st *Step) (bool, *Violation) {
 				Detail: fmt.Sprintf("RegisterPropertyCallback(%s, %s, %s) returned %v", ownNames[cb.owner], timeNames[cb.time], targetNames[cb.target], err)}
 		}
 		if err == nil {
+			if regTarget != nil {
+				*regTarget = append(*regTarget, cb)
+			}
 			w.regs = append(w.regs, cb)
 			w.probe("reg_" + ownNames[cb.owner] + "_" + timeNames[cb.time] + "_" + targetNames[cb.target])
 		} else {
@@ -315,6 +359,15 @@ func (w *World) regsAt(owner, time, target int, match func(cb *SimCallback) bool
 		out = append(out, cb)
 	}
 	return out
+}
+
+func hasReg(list []*SimCallback, cb *SimCallback) bool {
+	for _, x := range list {
+		if x == cb {
+			return true
+		}
+	}
+	return false
 }
 
 func cellName(mc *mCell) string { return "C" + strconv.Itoa(mc.itemID) }
@@ -444,7 +497,7 @@ func (w *World) expectedRenderPass() []cbExpect {
 			}
 			add(w.regsAt(ownRow, 1, 1, isRow), name)
 			add(w.regsAt(ownTable, 2, 1, nil), name)
-			add(w.regsAt(ownCell, 2, 0, func(cb *SimCallback) bool { return cb.cell == cc }), name)
+			add(w.regsAt(ownCell, 2, 0, func(cb *SimCallback) bool { return hasReg(cc.regs, cb) }), name)
 			add(w.regsAt(ownRow, 3, 1, isRow), name)
 			if !mr.header {
 				add(w.regsAt(ownColumn, 3, 1, isCol), name)
